@@ -125,7 +125,7 @@ struct XMinify : Engine {
     }
     std::string describe(const Case& c) override { return "\"" + printable(c.str().substr(0, 150)) + "\""; }
     void finish(std::map<std::string, std::string>& x) override {
-        x["rule"] = jstr("safety: every string over 13 steering bytes up to the length bound, in a buffer ending at a guard page and in one starting after a guard page; value: token lists of all trees <= 4 nodes x 13 string-literal variants with gaps filled from 12 whitespace/comment fillers "
+        x["rule"] = jstr("runs of each steering byte of every length 1..70 and around 128 / 256 / 1000 / 4097 in 11 contexts (incl. buffers that end inside a literal or comment); safety: every string over 13 steering bytes up to the length bound, in a buffer ending at a guard page and in one starting after a guard page; value: token lists of all trees <= 4 nodes x 18 string-literal variants with gaps filled from 15 whitespace/comment fillers "
                          "(uniform, one gap, all combinations for short lists, thorough: two gaps); non-trivial = value-preservation cases");
     }
 };
